@@ -57,6 +57,7 @@ struct jls_raw_s {
     int64_t offset;                 // the offset for the current chunk
     uint32_t last_payload_length;   // the payload length for the last chunk in the file.
     uint8_t write_en;
+    uint8_t torn_link_strict;       // 1: a header that looks like an interrupted link update is a CRC error
     union jls_version_u version;
 };
 
@@ -339,6 +340,12 @@ static bool hdr_is_torn_link(struct jls_chunk_header_s * h) {
     return false;
 }
 
+void jls_raw_torn_link_strict(struct jls_raw_s * self, bool strict) {
+    if (self) {
+        self->torn_link_strict = strict ? 1 : 0;
+    }
+}
+
 int32_t jls_raw_rd_header(struct jls_raw_s * self, struct jls_chunk_header_s * hdr) {
     struct jls_chunk_header_s * h = &self->hdr;
     if (hdr) {
@@ -363,7 +370,7 @@ int32_t jls_raw_rd_header(struct jls_raw_s * self, struct jls_chunk_header_s * h
             return JLS_ERROR_EMPTY;
         }
         uint32_t crc32 = jls_crc32c_hdr(h);
-        if ((crc32 != h->crc32) && !hdr_is_torn_link(h)) {
+        if ((crc32 != h->crc32) && (self->torn_link_strict || !hdr_is_torn_link(h))) {
             JLS_LOGW("chunk header fpos=%" PRIi64 " crc error: %u != %u",
                      self->backend.fpos, crc32, h->crc32);
             invalidate_current_chunk(self);
